@@ -288,6 +288,19 @@ def run(ctx):
     sample = [s for s in rand if ref.parse(s) is not None][: (4000 if quick else 150000)]
     sample += rng.sample(rand, min(len(rand), 3000 if quick else 30000)) + edges
     sample += ["".join(t) for t in itertools.product(["1", "0", ".", "-", "a", "v", "+", "r"], repeat=4)]
+    # spellings whose ONLY departure from the normal form is letter case (1.0RC1, 1.0.POST1, 1.0+ABC.5): the report must still show the normal form
+    ups = set()
+    for s_ in rand:
+        v_ = ref.parse(s_)
+        if v_ is not None and ref.representable(v_):
+            nf = ref.normal(v_)
+            if any(ch.isalpha() for ch in nf):
+                ups.add(nf.upper())
+                ups.add("".join(ch.upper() if i % 2 else ch for i, ch in enumerate(nf)))
+        if len(ups) >= (1500 if quick else 40000):
+            break
+    sample += sorted(ups)
+    ctx.count("check_case_only_spellings", len(ups))
     res3 = core.pmap(work_check_cli, [(ctx.bins, l) for l in core.split_even(sample, 32)])
     for r in res3:
         ctx.evaluations += r["n"]
